@@ -4,7 +4,7 @@
 patch=$1; shift
 cd /repo || exit 2
 git diff --quiet || { echo "repo has uncommitted changes"; exit 2; }
-git apply "$patch" 2>/dev/null || git apply -C1 "$patch" 2>/dev/null || git apply --3way "$patch" 2>/dev/null || { echo "patch does not apply"; git checkout -- .; exit 2; }
+git apply "$patch" 2>/dev/null || git apply -C1 "$patch" 2>/dev/null || { echo "patch does not apply"; git checkout -- .; exit 2; }
 trap 'git -C /repo checkout -- .' EXIT INT TERM
 /venv/bin/python -c "import mininec.mininec, mininec.pulse, mininec.taper" 2>/dev/null || { echo "patched tree does not import (patch misapplied?)"; exit 2; }
 for id in "$@"; do
